@@ -1082,6 +1082,7 @@ func (vm *VirtualMachine) Clone() (*VirtualMachine, error) {
 		ip:           0,
 		fp:           0,
 		running:      false,
+		halt:         vm.halt,
 		importer:     vm.importer,
 		os:           vm.os,
 		main:         vm.main,
